@@ -498,6 +498,9 @@ func genSpec(seed uint64, cold bool, opOnly bool, tier string) *RunSpec {
 	s.Tasks = make([][]Op, n)
 	g := &specGen{r: r, s: s, n: n, inbox: make([][]inboxEntry, n), nextIx: make([]int, n), tier: tier}
 	g.maxOps = 12 + r.intn(36)
+	if tier == "thorough" && r.chance(3) {
+		g.maxOps = 40 + r.intn(60) // long histories
+	}
 	g.noFmt = r.chance(3)
 	g.noXR = r.chance(4)
 	symmetric := cold || r.chance(5)
@@ -599,6 +602,9 @@ func genSpec(seed uint64, cold bool, opOnly bool, tier string) *RunSpec {
 			g.shared = append(g.shared, g.newObj(g.pickKind(), false, true))
 		}
 		actions := 10 + r.intn(50)
+		if tier == "thorough" && r.chance(3) {
+			actions = 60 + r.intn(80)
+		}
 		for a := 0; a < actions; a++ {
 			t := r.intn(n)
 			switch x := r.intn(10); {
